@@ -4278,6 +4278,11 @@ static void print_error_context_line(int line, int column, int caret_len, const 
     if (column < 1) {
         column = 1;
     }
+    /* Only the start of a very long line is shown: keep the caret under the shown text instead of
+     * padding out to the real column (diagnostics for one 250,000-character line ran to 140 MB) */
+    if ((size_t)column > line_len + 1) {
+        column = (int)line_len + 1;
+    }
     if (caret_len < 1) {
         caret_len = 1;
     }
